@@ -768,7 +768,8 @@ def corpus(batch):
         add_rr(u, "portal." + P, CNAME, cn("a." + S), 120)
         add_rr(u, "portal2." + Q, CNAME, cn("a." + S), 120)
         p.zones = [{"apex": S, "soa": g.soa(S, 300), "ops": [I("a." + S, A, v4(0x0A020201))]}]
-        # (the last question repeats the third: by then the cache holds upstream's alias AND upstream's address)
+        # (the last question repeats the third: by then the cache holds upstream's alias.  Former witness of C01's finding
+        # upstream-chain-into-owned-name; since fix b2bc3c2 every question here ends in the zone's 10.2.2.1)
         p.questions = [("a." + S, A), ("portal2." + Q, A), ("portal." + P, A), ("portal." + P, A)]
         return p
     both(c8)
